@@ -339,7 +339,7 @@ def rule_e(ctx):
             st = b.stmts(bb)[w[1]]
             ex = norm(b.canon(st["rv"]["use"])) if "use" in st["rv"] else "?"
             # (max over rows of the column count − this row's count) + 1
-            okc = ex.endswith("+ 1_usize)") and "::sub(" in ex and "Iterator::max(" in ex
+            okc = ex.endswith("+ 1_usize)") and ("::sub(" in ex or ") - " in ex) and "Iterator::max(" in ex
             # governed by colspan == 0
             gov = False
             for (a, s) in b.cdeps_transitive(bb):
@@ -392,9 +392,12 @@ def rule_e(ctx):
               str([norm(b.canon(g[1]["args"][1], env=env)) for g in gets]))
     # td parse default
     td = F.one("td_to_render_tree")
-    uo = [(bb, t) for bb, t in td.calls(lambda cd, t: callee_method(t) == "unwrap_or")]
-    okc = len(uo) == 1 and (op_const(uo[0][1]["args"][1]) or {}).get("int") == 1
-    ctx.check(okc, "C06-E", "td:colspan-parse-or-1", td.span, td.id, "")
+    # (the parse may sit in the closure of `.find(..).map_or(1, |a| a.value.parse().unwrap_or(1))`)
+    uo = [(x, t) for x in [td] + [c for _b, c in transitive_closures(F, td)]
+          for _bb, t in x.calls(lambda cd, t: callee_method(t) in ("unwrap_or", "map_or") and "usize" in " ".join((t.get("callee") or {}).get("targs") or []) + str(x.local_ty(t["dest"]["l"]) if not t["dest"]["p"] else ""))]
+    okc = bool(uo) and all((op_const(t["args"][1]) or {}).get("int") == 1 for _x, t in uo) and \
+        any(callee_method(t) == "unwrap_or" for _x, t in uo)
+    ctx.check(okc, "C06-E", "td:colspan-parse-or-1", td.span, td.id, "defaults: %s" % [(callee_method(t), (op_const(t["args"][1]) or {}).get("int")) for _x, t in uo])
 
 
 def rule_h(ctx):
@@ -476,7 +479,8 @@ def rule_f(ctx):
     res = sorted({(st.get("rv") or {}).get("variant") for x in td.reachable() for st in td.stmts(x)
                   if ends((st.get("rv") or {}).get("adt"), "TreeMapResult")})
     ctx.check(not res, "C06-F", "td:no-direct-result", td.span, td.id, "td_to_render_tree also returns %s directly" % res)
-    cls = [cb for _bb, _i, cb, _o, _f in closure_bodies_created_in(F, td)]
+    cls = [cb for _bb, _i, cb, _o, _f in closure_bodies_created_in(F, td)
+           if any((st.get("rv") or {}).get("variant") == "TableCell" for x in cb.reachable() for st in cb.stmts(x))]
     if ctx.check(len(cls) == 1, "C06-F", "td:one-reducer", td.span, td.id, ""):
         cb = cls[0]
         rets = []
